@@ -16,6 +16,7 @@ import (
 	"strconv"
 	"strings"
 	"sync"
+	"sync/atomic"
 	"time"
 
 	"verif/mc/explore"
@@ -59,6 +60,7 @@ type Run struct {
 	Assume   []string
 	samples  []any
 	deadline time.Time
+	Quiet    bool // do not print one line per scenario
 }
 
 // Start parses flags and loads known findings.
@@ -305,8 +307,13 @@ func (r *Run) RunScenarios(scs []Scenario) {
 		return
 	}
 	tot := Totals{Exhaustive: true}
-	for _, sc := range scs {
-		tot.Scenarios++
+	type res struct {
+		last      explore.Stats
+		completed int
+	}
+	results := make([]res, len(scs))
+	runOne := func(i int, workers int) {
+		sc := scs[i]
 		b0 := 0
 		if sc.NoIter {
 			b0 = sc.Bound
@@ -314,7 +321,7 @@ func (r *Run) RunScenarios(scs []Scenario) {
 		var last explore.Stats
 		var completed = -1
 		for b := b0; b <= sc.Bound; b++ {
-			ex := &explore.Explorer{Bound: b, Deadline: r.deadline, PanicSig: sc.PanicSig}
+			ex := &explore.Explorer{Bound: b, Deadline: r.deadline, PanicSig: sc.PanicSig, Workers: workers}
 			st, found := ex.Explore(sc.Body)
 			for _, s := range st.Infra {
 				r.Infra("%s: %s", sc.Name, s)
@@ -329,6 +336,34 @@ func (r *Run) RunScenarios(scs []Scenario) {
 				break
 			}
 		}
+		results[i] = res{last, completed}
+	}
+	if len(scs) > 32 {
+		// many small scenarios: one worker each, scenarios in parallel
+		var next int64 = -1
+		var wg sync.WaitGroup
+		for w := 0; w < runtime.NumCPU(); w++ {
+			wg.Add(1)
+			go func() {
+				defer wg.Done()
+				for {
+					i := int(atomic.AddInt64(&next, 1))
+					if i >= len(scs) {
+						return
+					}
+					runOne(i, 1)
+				}
+			}()
+		}
+		wg.Wait()
+	} else {
+		for i := range scs {
+			runOne(i, 0)
+		}
+	}
+	for i, sc := range scs {
+		last, completed := results[i].last, results[i].completed
+		tot.Scenarios++
 		tot.Executions += last.Executions
 		tot.Transitions += last.Transitions
 		tot.States += last.States
@@ -340,18 +375,23 @@ func (r *Run) RunScenarios(scs []Scenario) {
 		if completed < sc.Bound {
 			tot.Exhaustive = false
 		}
-		tot.PerScenario = append(tot.PerScenario, map[string]any{
-			"scenario": sc.Name, "bound_requested": sc.Bound, "bound_completed": completed,
-			"executions": last.Executions, "states": last.States, "transitions": last.Transitions,
-			"distinct_outcomes": last.Outcomes, "capped_executions": last.CappedExecs, "pruned": last.Pruned,
-			"max_choice_points": last.MaxDepth,
-		})
-		fmt.Printf("scenario %-40s bound=%d/%d execs=%d states=%d transitions=%d outcomes=%d capped=%d %.1fs\n",
-			sc.Name, completed, sc.Bound, last.Executions, last.States, last.Transitions, last.Outcomes, last.CappedExecs, last.WallS)
-		if len(scs) > 0 && len(r.samples) < 3 && len(last.OutcomeList) > 0 {
+		if len(tot.PerScenario) < 60 {
+			tot.PerScenario = append(tot.PerScenario, map[string]any{
+				"scenario": sc.Name, "bound_requested": sc.Bound, "bound_completed": completed,
+				"executions": last.Executions, "states": last.States, "transitions": last.Transitions,
+				"distinct_outcomes": last.Outcomes, "capped_executions": last.CappedExecs, "pruned": last.Pruned,
+				"max_choice_points": last.MaxDepth,
+			})
+		}
+		if !r.Quiet {
+			fmt.Printf("scenario %-40s bound=%d/%d execs=%d states=%d transitions=%d outcomes=%d capped=%d %.1fs\n",
+				sc.Name, completed, sc.Bound, last.Executions, last.States, last.Transitions, last.Outcomes, last.CappedExecs, last.WallS)
+		}
+		if len(r.samples) < 3 && len(last.OutcomeList) > 0 {
 			r.Sample(map[string]any{"scenario": sc.Name, "an_outcome": last.OutcomeList[0]})
 		}
 	}
+	fmt.Printf("scenarios=%d executions=%d transitions=%d distinct_outcomes=%d exhaustive=%v\n", tot.Scenarios, tot.Executions, tot.Transitions, tot.Outcomes, tot.Exhaustive)
 	states := tot.States
 	if states == 0 {
 		states = int(tot.Outcomes)
@@ -364,6 +404,7 @@ func (r *Run) RunScenarios(scs []Scenario) {
 	r.Cov["rule"] = "every choice vector (environment answers / schedules) with at most bound non-default answers is executed once on a fresh instance of the real component; distinct_nontrivial counts distinct observable outcomes (port-level traces) over all scenarios"
 	r.Cov["exhaustive"] = tot.Exhaustive
 	r.Cov["scenarios"] = tot.PerScenario
+	r.Cov["scenarios_total"] = tot.Scenarios
 	r.Cov["max_choice_points"] = tot.MaxDepth
 }
 
